@@ -125,12 +125,31 @@ def parse_call(msg, fn):
         j += 1
     call = s[: j + 1]
     try:
-        node = ast.parse(call, mode="eval").body
-        args = [ast.literal_eval(a) for a in node.args]
-        kwargs = {k.arg: ast.literal_eval(k.value) for k in node.keywords}
-        return {"args": args, "kwargs": kwargs, "text": call}
+        # CrossHair prints python expressions, possibly with walrus aliases (f(v1:=b'', v1)); evaluate them
+        # with no builtins but the constructors its reprs use.
+        env = {"__builtins__": {}, "float": float, "set": set, "frozenset": frozenset, "bytearray": bytearray,
+               "dict": dict, "list": list, "tuple": tuple, "True": True, "False": False, "None": None,
+               fn: (lambda *a, **k: (list(a), dict(k)))}
+        args, kwargs = eval(call, env)
+        json.dumps([_enc(args), _enc(kwargs)], default=_jsonable)
+        return {"args": _enc(args), "kwargs": _enc(kwargs), "text": call}
     except Exception:
         return {"args": None, "kwargs": None, "text": call}
+
+
+def _jsonable(o):
+    raise TypeError
+
+
+def _enc(o):
+    """JSON-encodable form of arguments; bytes become {"__bytes__": [..]} (decoded in lib/replay.py)."""
+    if isinstance(o, bytes):
+        return {"__bytes__": list(o)}
+    if isinstance(o, (list, tuple)):
+        return [_enc(x) for x in o]
+    if isinstance(o, dict):
+        return {k: _enc(v) for k, v in o.items()}
+    return o
 
 
 def run_xh(job, tier):
